@@ -470,6 +470,7 @@ def _envsf():
         'dont_write_bytecode': lambda ev: ev.st.ghost['env.dont_write_bytecode'],
         'cachepath': lambda ev, p: VStr(E.cachepath(p.z)),
         'isfunction': lambda ev, v: VBool(T.Val.is_VF(to_val(v))),
+        'is_tmp': lambda ev, p: VBool(E.is_tmp_path(p.z)),
     }
     return d
 
